@@ -1423,3 +1423,7 @@ Lemma all_token_last c n ls g f lid d t :
 Proof.
   intros V H. pose proof (reach_sinv c n ls V) as SI. eapply fk_all. eapply si_f; eauto.
 Qed.
+
+Lemma getlids_atomic_complete x lid : In lid (posting x) ->
+  In lid (tl_sorted (merge_tok x)) /\ In lid (tl_sorted (merge_tok (merge_tok x))).
+Proof. unfold posting, merge_tok; simpl. intros H. rewrite app_nil_r. auto. Qed.
